@@ -39,6 +39,12 @@ pub struct Case {
     pub filter: Option<Vec<u32>>,
     pub count: bool,
     pub u: bool,
+    /// delete_after: 0 makes every sweep visible (a filtered frame must not move the sweep schedule)
+    #[serde(default = "big_d")]
+    pub d: i64,
+}
+fn big_d() -> i64 {
+    1_000_000
 }
 
 fn line_strategy() -> BoxedStrategy<Vec<u8>> {
@@ -66,9 +72,9 @@ fn case_strategy(max: usize) -> BoxedStrategy<Case> {
     let filt = prop_oneof![
         2 => Just(None),
         5 => proptest::sample::subsequence(NINE.to_vec(), 1..7).prop_map(Some),
-        1 => proptest::collection::vec(prop_oneof![0u32..32, Just(99u32)], 1..5).prop_map(Some),
+        1 => proptest::collection::vec(prop_oneof![2 => 0u32..32, 2 => 32u32..64, 1 => Just(99u32), 1 => Just(4u32 + 32), 1 => Just(17u32 + 32)], 1..5).prop_map(Some),
     ];
-    (proptest::collection::vec(line_strategy(), 3..max), filt, any::<bool>(), any::<bool>()).prop_map(|(lines, filter, count, u)| Case { lines, filter, count, u }).boxed()
+    (proptest::collection::vec(line_strategy(), 3..max), filt, any::<bool>(), any::<bool>(), prop_oneof![3 => Just(1_000_000i64), 1 => Just(0i64)]).prop_map(|(lines, filter, count, u, d)| Case { lines, filter, count, u, d }).boxed()
 }
 
 fn frame_of(line: &[u8]) -> Option<Frame> {
@@ -100,8 +106,8 @@ pub fn expected_counts(c: &Case) -> BTreeMap<u32, u64> {
 }
 
 fn check_filter(c: &Case) -> Result<(), String> {
-    let o1 = Opts { f: c.filter.clone(), u: c.u, ..Opts::default() };
-    let o2 = Opts { f: None, u: c.u, ..Opts::default() };
+    let o1 = Opts { f: c.filter.clone(), u: c.u, d: c.d, ..Opts::default() };
+    let o2 = Opts { f: None, u: c.u, d: c.d, ..Opts::default() };
     let all: Vec<&Vec<u8>> = c.lines.iter().collect();
     let kept: Vec<&Vec<u8>> = c
         .lines
@@ -117,7 +123,7 @@ fn check_filter(c: &Case) -> Result<(), String> {
     let t2 = run::new_table();
     run::run_bytes(&o2, &t2, &join(&kept)).map_err(|e| format!("reader failed: {:?}", e))?;
     // frames excluded by the filter leave the table untouched - time stamps included
-    if let Some(flt) = &c.filter {
+    if let (Some(flt), true) = (&c.filter, c.d > 0) {
         let excl: Vec<&Vec<u8>> = c.lines.iter().filter(|l| frame_of(l).map(|f| !flt.contains(&f.df())).unwrap_or(false)).collect();
         if !excl.is_empty() {
             let s1 = run::snapshot(&t1);
@@ -131,7 +137,7 @@ fn check_filter(c: &Case) -> Result<(), String> {
     let a = run::no_clock(&run::snapshot(&t1));
     let b = run::no_clock(&run::snapshot(&t2));
     if a != b {
-        return Err(format!("table with -f {:?} differs from the table of the admitted frames alone: {}", c.filter, run::table_diff(&b, &a).iter().take(5).cloned().collect::<Vec<_>>().join("; ")));
+        return Err(format!("table with -f {:?} (delete_after {}) differs from the table of the admitted frames alone: {}", c.filter, c.d, run::table_diff(&b, &a).iter().take(5).cloned().collect::<Vec<_>>().join("; ")));
     }
     Ok(())
 }
@@ -228,6 +234,7 @@ fn classify(c: &mut Ctx, k: &Case) {
         c.class("other");
     }
     if k.count { c.class("with_c"); }
+    if k.d == 0 { c.class("delete_after_0"); }
     if k.filter.is_none() { c.class("no_filter"); }
 }
 
